@@ -244,7 +244,59 @@ def tie_D(res, exe, args, driver_cmd, compare, label, timeout=120):
     return rows
 
 
-def tie_A(res, client, model, runs, label=None):
+def freelist_pre(text):
+    """Translate the free-list client's trace into the vocabulary of the Lean machines Algo/FreeList and
+    Algo/TaggedFreeList: dynamic operations (put_last / put_any / get, which name the node only in their result)
+    become `put <tid> <node>` / `get <tid>`, results become the machine's ([1] / [1, node] / [0]); the nodes a thread
+    holds at the start and the main thread's untraced initial puts go into the header line (own= / init=)."""
+    out = []
+    for cid, block in vlib.split_cases(text):
+        lines = block.split("\n")
+        init = [l.split()[5] for l in lines if l.startswith("H 90 ") and " put " in l]
+        # next RET of each CALL
+        pend = {}
+        kind = {}
+        for i, l in enumerate(lines):
+            w = l.split()
+            if len(w) >= 3 and w[0] == "T" and w[2] == "CALL":
+                pend[w[1]] = i
+            elif len(w) >= 3 and w[0] == "T" and w[2] == "RET" and w[1] in pend:
+                kind[pend.pop(w[1])] = (w[3], w[4] if len(w) > 4 else "0")
+        own = []
+        got = set(init)
+        new = []
+        for i, l in enumerate(lines):
+            w = l.split()
+            if len(w) >= 3 and w[0] == "T" and w[2] == "CALL":
+                k = kind.get(i)
+                if k is None:
+                    new.append(l)        # unfinished call (aborted case): left as is
+                elif k[0] == "1":
+                    if k[1] not in got:
+                        own.append("%s:%s" % (k[1], w[1]))
+                        got.add(k[1])
+                    new.append("T %s CALL put %s %s" % (w[1], w[1], k[1]))
+                else:
+                    new.append("T %s CALL get %s" % (w[1], w[1]))
+            elif len(w) >= 4 and w[0] == "T" and w[2] == "RET":
+                if w[3] == "1":
+                    new.append("T %s RET 1" % w[1])
+                elif len(w) > 4 and w[4] != "0":
+                    got.add(w[4])
+                    new.append("T %s RET 1 %s" % (w[1], w[4]))
+                else:
+                    new.append("T %s RET 0" % w[1])
+            else:
+                new.append(l)
+        for i, l in enumerate(new):
+            if l.startswith("# family="):
+                new[i] = l + " own=" + ",".join(own) + " init=" + ",".join(init)
+                break
+        out.append("\n".join(new))
+    return "\n".join(out) + "\n"
+
+
+def tie_A(res, client, model, runs, label=None, pre=None):
     """Atomic-trace conformance: the Lean machine `model` must accept, step by step, the atomic operations
     the real code performed (cdsdriver replay <model>)."""
     exe = vlib.build_client(client)
@@ -259,7 +311,7 @@ def tie_A(res, client, model, runs, label=None):
         for a in aborted:
             if a["rc"] not in (41, 42):
                 res.violation("%s:crash:rc=%s" % (label, a["rc"]), {"kind": "crash", "client": client, "args": run["args"], "case": a["case"], "cmd": a["cmd"]})
-        verdicts = vlib.driver(["replay", model], text)
+        verdicts = vlib.driver(["replay", model], pre(text) if pre else text)
         vmap = {}
         for line in verdicts.split("\n"):
             w = line.split(None, 2)
@@ -296,6 +348,123 @@ def tie_A(res, client, model, runs, label=None):
     res.add("model_steps_matched", steps_total)
     res.cov["distinct_nontrivial"] = res.cov.get("distinct_nontrivial", 0) + len(nontrivial)
     res.cov["distinct_traces"] = res.cov.get("distinct_traces", 0) + len(hashes)
+    return total
+
+
+def tie_S(res, client, runs, label=None):
+    """Snapshot tie (C18): after each scheduled program the client dumps the quiescent structure (SNAP), its
+    traversal (ITER), size()/empty() and the library's consistency check; `cdsdriver snapshot` judges the dump with
+    the Lean well-formedness functions (theorems in Props/C18: well-formed => traversal exact, sorted, duplicate-free,
+    levels are sub-lists, search-tree order, ...) and returns the abstract content; the content must equal ITER, and
+    it must be a possible final content of the history: one `contains k` observation per key of the program, taken
+    from the snapshot, is appended to the history before the verified linearizability checker judges it."""
+    exe = vlib.build_client(client)
+    label = label or client
+    total = 0
+    notes = {}
+    per_variant = {}
+    for run in runs:
+        args = ["--seed", str(res.seed)] + run["args"]
+        text, aborted = vlib.run_cases(exe, args, run["cases"], timeout=run.get("timeout", 600))
+        for a in aborted:
+            if a["rc"] not in (41, 42):
+                res.violation("%s:crash:rc=%s" % (label, a["rc"]), {"kind": "crash", "client": client, "args": run["args"], "case": a["case"], "cmd": a["cmd"]})
+        sv = vlib.driver(["snapshot"], text)
+        snap = {}
+        cur = None
+        for line in sv.split("\n"):
+            w = line.split(None, 2)
+            if not w:
+                continue
+            if w[0] == "CASE":
+                cur = w[1]
+                snap[cur] = {"wf": None, "abs": None, "notes": [], "why": ""}
+            elif cur is not None and w[0] == "WF":
+                m = re.search(r"abs=\[(.*)\]", line)
+                snap[cur]["wf"] = True
+                snap[cur]["abs"] = [int(x) for x in m.group(1).split(",") if x.strip()] if m else None
+            elif cur is not None and w[0] == "NOTWF":
+                snap[cur]["wf"] = False
+                snap[cur]["why"] = line
+            elif cur is not None and w[0] == "NOTE":
+                snap[cur]["notes"].append(line)
+        # histories extended by the final observations
+        ext = []
+        blocks = list(vlib.split_cases(text))
+        for cid, block in blocks:
+            sn = snap.get(cid)
+            lines = block.rstrip("\n").split("\n")
+            if sn and sn["abs"] is not None:
+                keys = set()
+                tmax = 0
+                for l in lines:
+                    w = l.split()
+                    if w[:1] == ["P"] and len(w) >= 4 and re.match(r"-?\d+$", w[3]) and w[2] not in ("extract_min", "extract_max"):
+                        keys.add(int(w[3]))
+                    if w[:1] == ["O"]:
+                        tmax = max(tmax, int(w[3]))
+                keys |= set(sn["abs"])
+                obs = []
+                t = tmax + 10
+                for k in sorted(keys):
+                    obs.append("O 99 %d %d contains %d : %d" % (t, t + 1, k, 1 if k in sn["abs"] else 0))
+                    t += 2
+                end = [i for i, l in enumerate(lines) if l.startswith("END")]
+                at = end[0] if end else len(lines)
+                lines = lines[:at] + obs + lines[at:]
+            ext.append("\n".join(lines))
+        verdicts = vlib.driver(["lincheck"], "\n".join(ext) + "\n")
+        vmap = {}
+        for line in verdicts.split("\n"):
+            w = line.split()
+            if len(w) >= 2:
+                vmap[w[1]] = w[0]
+        for cid, block in blocks:
+            total += 1
+            end = parse_end(block)
+            hdr = header_of(block)
+            var = hdr.get("variant", "?")
+            per_variant[var] = per_variant.get(var, 0) + 1
+            replay = {"kind": "snapshot", "client": client, "args": run["args"], "case": cid, "variant": var, "schedule": sched_of(block), "block": block[:20000]}
+            if end.get("status") != "ok":
+                res.violation("%s:%s:hang:%s" % (label, var, end.get("status")), dict(replay, kind="hang"))
+                continue
+            sn = snap.get(cid)
+            for x in re.findall(r"^X (.*)$", block, flags=re.M):
+                res.violation("%s:%s:oracle:%s" % (label, var, x.split()[0]), dict(replay, kind="oracle", oracle=[x]))
+            if not sn or sn["wf"] is None:
+                res.violation("%s:%s:driver:no-verdict" % (label, var), dict(replay, kind="driver-problem"), no_input=True)
+                continue
+            if sn["wf"] is False:
+                res.violation("%s:%s:not-well-formed:%s" % (label, var, "-".join(sn["why"].split()[1:4])), dict(replay, verdict=sn["why"]))
+                continue
+            for n in sn["notes"]:
+                key = " ".join(n.split()[1:4])
+                notes[key] = notes.get(key, 0) + 1
+                if "shape-balance" in n:
+                    # C18 names AVL balance for Bronson at quiescent points: structural heights of two siblings differ by more than one.
+                    # (A stale stored height or a routing node left with one child is bookkeeping of the relaxed-balance tree:
+                    #  counted in the evidence as a note, not a violation.)
+                    res.violation("%s:%s:avl-shape-imbalance" % (label, var), dict(replay, verdict=n))
+            m = re.search(r"^ITER(.*)$", block, flags=re.M)
+            if m:
+                it = [int(x) for x in m.group(1).split()]
+                if it != sn["abs"]:
+                    res.violation("%s:%s:traversal-differs-from-content" % (label, var), dict(replay, iter=it, abs=sn["abs"]))
+            v = vmap.get(cid, "MISSING")
+            if v == "NOTLIN":
+                res.violation("%s:%s:final-content-not-explained-by-history" % (label, var), dict(replay, kind="failing-history", abs=sn["abs"]))
+            elif v != "LIN":
+                res.violation("%s:%s:driver:%s" % (label, var, v), dict(replay, kind="driver-problem"), no_input=True)
+            if total % 997 == 1:
+                res.sample({"client": client, "variant": var, "snap": (re.findall(r"^SNAP.*$", block, flags=re.M) or [""])[0][:200], "abs": sn["abs"]})
+    res.add("evaluations", total)
+    res.add("programs", total)
+    res.add("traces_validated_against_impl", total)
+    res.cov.setdefault("per_variant", {}).update({label + ":" + k: v for k, v in per_variant.items()})
+    allnotes = res.cov.setdefault("snapshot_notes", {})
+    for k, v in notes.items():
+        allnotes[k] = allnotes.get(k, 0) + v
     return total
 
 
